@@ -16,6 +16,7 @@ LEVEL_TEXT = ("Real runs with {name} (single and paired) and {name1}/{name2} in 
               "multiset of records over all demultiplexed files must equal the main output of the same command with a plain -o.")
 LEVEL_TEXT += " Each file's records are compared with the right mate's record of the baseline (not only the read id), adapter names contain punctuation, collide after punctuation is mapped to '_', or are literally 'unknown'; a run that is refused only with several cores is a violation."
 LEVEL_TEXT += ' Placeholders in directory components or at the start of the template (differential against the plain placement), the empty adapter name, paired --revcomp scenarios.'
+LEVEL_TEXT += " Under --pair-adapters with an adapter shared by two ranks the reference name comes from the partner's rank."
 LEVEL_NOTE = ("Trusted base: independent parser, unique ids, the baseline's {adapter_name} tag (last match), file names derived from the "
               "template by plain string replacement.")
 VARIANTS = {"quick": ["plain"], "thorough": ["plain"]}
